@@ -397,6 +397,12 @@ def cache_probe():
     cur = getattr(bc, "_current_constraints", None)
     out["table_id"] = id(cur)
     out["table"] = dict(cur) if isinstance(cur, dict) else None
+    # the global constraint state as the API reports it: table in force and the three presets
+    try:
+        out["reported"] = bc.get_semantic_constraints()
+        out["presets"] = {name: bc.get_preset_constraints(name) for name in ("default", "octet_rule", "hypervalent")}
+    except Exception as e:      # noqa - a probe never raises into the workload
+        out["reported"] = out["presets"] = "probe failed: %r" % (e,)
     return out
 
 
